@@ -881,6 +881,11 @@ func genTTXStream(t *rapid.T) ttxStream {
 				in.PackWithNext = true
 			}
 		}
+		if i > 0 && len(s.Instances[i-1].Rows) > 0 && rapid.IntRange(0, 5).Draw(t, "repeat") == 0 {
+			// the same subtitle transmitted again (a page is repeated as long as it is on screen): one more instance
+			prev := s.Instances[i-1]
+			in.Rows, in.C12, in.C13, in.C14, in.SplitAt = prev.Rows, prev.C12, prev.C13, prev.C14, 0
+		}
 		s.Instances = append(s.Instances, in)
 		pts += rapid.Int64Range(3600, 90000*20).Draw(t, "gap")
 	}
